@@ -238,6 +238,16 @@ func (vc *VC) rangeNext(fr *Frame, st *State, ins *ssa.Next) Val {
 		vc.assume(st, implies(okv, found))
 		vc.assume(st, implies(eq(vc.mapLen(st, it.X), i64(0)), not(okv)))
 		name := vc.visitedName(fr, rg)
+		if name == "" {
+			// a range statement that is left after its first step (no back edge): the first step
+			// fails only if the map is empty
+			if ks, ok := vc.mapKeySort(it.mt); ok {
+				base := "M:" + typeKey(it.mt)
+				d := vc.heapGet(st, base+".dom", arraySort(sortRef, arraySort(ks, sortBool)))
+				none := fmt.Sprintf("(forall ((k!q %s)) (! (not (select (select %s %s) k!q)) :pattern ((select (select %s %s) k!q))))", ks, d, it.X.S, d, it.X.S)
+				vc.assume(st, implies(not(okv), none))
+			}
+		}
 		if vis, has := st.ghost[name]; has && name != "" {
 			if kterm, ok := vc.mapKeyTerm(k); ok {
 				vc.assume(st, implies(okv, not(sel(vis.S, kterm))))
